@@ -151,6 +151,28 @@ impl C13 {
     } else {
       out.skip("lunar_month_partly_outside_civil_range");
     }
+    // every listed lunar day lists its 13 double-hour slots - also the lunar days of years 0 and 9999 that have no civil
+    // date (the hour list is a matter of the lunar day alone); first, middle and last day of the month
+    for j in [0usize, dc / 2, dc.saturating_sub(1)] {
+      if let Some(d) = ds.get(j) {
+        match guard(|| d.get_hours().iter().map(|h| (lymd(&h.get_lunar_day()), h.get_hour() as i64, h.get_index_in_day() as i64)).collect::<Vec<_>>()) {
+          Ok(hs) => {
+            let mut exp = vec![((y, m, j as i64 + 1), 0i64, 0i64)];
+            for q in 0..12i64 {
+              exp.push(((y, m, j as i64 + 1), 2 * q + 1, q + 1));
+            }
+            if hs != exp {
+              out.fail(env, viol("lmonth", "hours_of_listed_day", case, &k, format!("L({},{},{}).get_hours()", y, m, j + 1), "13 slots 00:00, 01:00, .. 23:00".into(), format!("{} slots {:?}", hs.len(), hs.iter().map(|x| x.1).collect::<Vec<_>>())));
+              break;
+            }
+          }
+          Err(e) => {
+            out.fail(env, viol("lmonth", "hours_of_listed_day_panics", case, &k, format!("L({},{},{}).get_hours()", y, m, j + 1), "13 slots".into(), e));
+            break;
+          }
+        }
+      }
+    }
   }
 
   fn eval_lyear(&self, env: &Env, out: &mut Out, case: &Case) {
@@ -304,6 +326,17 @@ impl C13 {
           None
         }) {
           out.fail(env, viol("smonth", "listed_day_differs_from_constructed", case, &k, format!("{} in month {} of sexagenary year {} .get_days()", fmt_ymd(dt), j, y), built, listed));
+        }
+        // the same month addressed through an out-of-cycle index of the neighbouring sexagenary year lists the same days
+        if j % 4 == (y % 4) && (2..=9996).contains(&y) {
+          for (yy, jj) in [(y - 1, j + 12), (y + 1, j - 12)] {
+            if let Ok(via) = guard(|| tyme4rs::tyme::sixtycycle::SixtyCycleMonth::from_index(yy as isize, jj as isize).get_days().iter().map(|d| ymd(&d.get_solar_day())).collect::<Vec<_>>()) {
+              if via != exp {
+                out.fail(env, viol("smonth", "days_of_month_addressed_by_out_of_cycle_index", case, &k, format!("SixtyCycleMonth::from_index({}, {}).get_days()", yy, jj), format!("{} days {}..{}", exp.len(), c.fmt(i0), c.fmt(i1 - 1)), format!("{} days {:?}..", via.len(), via.first().map(|d| fmt_ymd(*d)))));
+                break;
+              }
+            }
+          }
         }
         // the same month reached from one of its days lists the same days
         if let Some(mid) = exp.get(exp.len() / 2) {
